@@ -2,6 +2,7 @@
 // Stages: fuzz (generated/mutated/hostile files + follow-up calls), sweep (exhaustive truncation and
 // single-byte substitution of small well-formed files of every format).
 #include "vconv.hpp"
+#include <functional>
 
 static const char *harness_name() { return "c01_music"; }
 static void harness_init() { default_bank(); }
@@ -46,6 +47,41 @@ static Bytes seed_file(Rng &r, int fmt, std::string &fmtname)
         for(int i = 0; i < n; i++) { body.push_back((uint8_t)r.range(0x20, 0xF5)); body.push_back(r.byte()); put_le(body, (uint64_t)r.range(0, 3), 2); }
         Bytes f; put_le(f, body.size(), 2); put_bytes(f, body);
         while(f.size() < 16) f.push_back(0);
+        return f;
+    }
+    case 8:
+    {   // well-formed "loop storm": global and nested (stack) loop markers, also with infinite counts, around bodies that
+        // take little or no song time (zero deltas, tempo 0..2 us per quarter note); the anti-freeze logic must bound every call
+        fmtname = "loopstorm";
+        int div = r.pick((const int[]){1, 24, 96, 480, 32767});
+        Bytes b;
+        auto delta = [&]() { switch(r.below(5)) { case 0: case 1: b.push_back(0); break; case 2: put_vlq(b, (uint64_t)r.range(1, 4)); break; case 3: put_vlq(b, (uint64_t)r.range(1, div)); break; default: put_vlq(b, (uint64_t)r.range(1, 4 * div)); } };
+        auto tempo = [&]() { delta(); b.push_back(0xFF); b.push_back(0x51); b.push_back(3); uint32_t us = r.chance(0.6) ? (uint32_t)r.below(3) : (uint32_t)r.pick((const int[]){3, 10, 1000, 500000}); b.push_back((uint8_t)(us >> 16)); b.push_back((uint8_t)(us >> 8)); b.push_back((uint8_t)us); };
+        auto marker = [&](const std::string &t) { delta(); b.push_back(0xFF); b.push_back(0x06); put_vlq(b, t.size()); put_str(b, t.c_str()); };
+        auto note = [&]() { delta(); b.push_back((uint8_t)(0x90 | r.below(3))); b.push_back((uint8_t)r.range(40, 80)); b.push_back((uint8_t)r.range(0, 127)); };
+        std::function<void(int)> section = [&](int depth)
+        {
+            int n = r.range(0, 5);
+            for(int i = 0; i < n; i++)
+            {
+                int k = (int)r.below(10);
+                if(k < 4) note();
+                else if(k < 6) tempo();
+                else if(k < 8 && depth < 3)
+                {
+                    marker(vfmt("loopStart=%d", (int)r.pick((const int[]){0, 0, 1, 2, 3, 100})));
+                    section(depth + 1);
+                    marker(r.chance(0.8) ? std::string("loopEnd=0") : std::string("loopEnd"));
+                }
+                else if(k == 8) marker(r.chance(0.5) ? "loopStart" : "loopEnd");
+                else { delta(); b.push_back((uint8_t)(0xB0 | r.below(3))); b.push_back((uint8_t)r.pick((const int[]){7, 11, 64, 111, 116, 117})); b.push_back((uint8_t)r.below(128)); }
+            }
+        };
+        if(r.chance(0.6)) tempo();
+        section(0);
+        delta(); b.push_back(0xFF); b.push_back(0x2F); b.push_back(0);
+        Bytes f; put_str(f, "MThd"); put_be(f, 6, 4); put_be(f, 0, 2); put_be(f, 1, 2); put_be(f, (uint64_t)div, 2);
+        put_str(f, "MTrk"); put_be(f, b.size(), 4); put_bytes(f, b);
         return f;
     }
     case 7:
@@ -459,10 +495,10 @@ static void run_case(Case &c)
     else
     {
         int cls = (int)r.below(100);
-        if(cls < 45) { std::string nm; file = seed_file(r, (int)r.below(8), nm); int before = (int)file.size(); mutate(r, file); desc = vfmt("mutated-%s(%d->%zu)", nm.c_str(), before, file.size()); }
+        if(cls < 45) { std::string nm; file = seed_file(r, (int)r.below(9), nm); int before = (int)file.size(); mutate(r, file); desc = vfmt("mutated-%s(%d->%zu)", nm.c_str(), before, file.size()); }
         else if(cls < 70) file = hostile_smf(r, desc);
         else if(cls < 92) file = hostile_other(r, desc);
-        else { std::string nm; file = seed_file(r, (int)r.below(8), nm); desc = "wellformed-" + nm; }
+        else { std::string nm; file = seed_file(r, r.chance(0.4) ? 8 : (int)r.below(8), nm); desc = "wellformed-" + nm; }
         presel = r.chance(0.3) ? r.range(-2, 5) : 0;
         nfollow = r.range(0, 40);
         if(file.size() > 6000) nfollow = std::min(nfollow, 8);   // event storms: every seek replays thousands of events
